@@ -13,6 +13,7 @@ from ..escape import Escape
 from ..taint import Taint
 from ..dtable import same_bool
 from .. import util as U
+from .. import flow as F
 from .. import regexs as RX
 import re._constants as C
 
@@ -39,7 +40,24 @@ ENTRY_POINTS = [
     'wpull.protocol.ftp.client:Session.start', 'wpull.protocol.ftp.client:Session.start_listing',
     'wpull.protocol.ftp.client:Session.download', 'wpull.protocol.ftp.client:Session.download_listing',
     'wpull.scraper.base:DemuxDocumentScraper.scrape_info',
+    # everything else the processors do with a response (writer sessions, result rules, scraping glue, link queueing)
+    'wpull.processor.web:WebProcessorSession.process',
+    'wpull.processor.ftp:FTPProcessorSession.process',
 ]
+
+PROCESSOR_SIDE = ('wpull.writer', 'wpull.processor.web', 'wpull.processor.ftp', 'wpull.processor.rule', 'wpull.processor.base',
+                  'wpull.cookiewrapper', 'wpull.cookie')
+
+# results that are chosen from a local table or measured on the local file system: the server selects, it does not supply them
+CLEAN_CALLS = {'mimetypes.guess_type', 'os.path.getsize', 'os.path.getmtime', 'os.path.exists', 'os.path.isfile', 'os.path.isdir',
+               'os.fstat', 'len'}
+CLEAN_METHODS = {'tell', 'size'}
+
+# not analysed from the processor entry points (each has its own property or is declared out of scope in DESIGN.md section 7)
+OUT_OF_SCOPE_MODULES = ('wpull.thirdparty', 'wpull.processor.coprocessor', 'wpull.driver', 'wpull.warc', 'wpull.database', 'wpull.path',
+                        'wpull.proxy.server', 'wpull.application.hook', 'wpull.application.plugin', 'wpull.converter')
+# local file-system failures (disk full, name clash, permissions) are environment errors, not server data
+LOCAL_IO = {'open': [], 'os.remove': [], 'os.rename': [], 'os.makedirs': [], 'os.utime': []}
 
 TAINT_SEEDS = [
     ('wpull.protocol.http.request:Response.parse', 'data'),
@@ -53,6 +71,44 @@ TAINT_SEEDS = [
     ('wpull.protocol.ftp.ls.listing:ListingParser.__init__', 'text'),
     ('wpull.protocol.ftp.ls.listing:ListingParser.__init__', 'file'),
 ]
+
+
+def _cookie_callbacks(repo):
+    """http.cookiejar calls the policy object back: extract_cookies -> policy.set_ok, add_cookie_header -> policy.return_ok /
+    domain_return_ok / path_return_ok.  Policies are the repository classes derived from (Default)CookiePolicy."""
+    out = {'extract_cookies': [], 'add_cookie_header': [], 'make_cookies': [], 'set_cookie_if_ok': []}
+    for ci in repo.classes.values():
+        if any(b.endswith('CookiePolicy') for c in repo.mro(ci) for b in repo.external_bases(c)):
+            for m, hooks in (('set_ok', ('extract_cookies', 'set_cookie_if_ok')), ('return_ok', ('add_cookie_header',)),
+                             ('domain_return_ok', ('add_cookie_header',)), ('path_return_ok', ('add_cookie_header',))):
+                if m in ci.methods:
+                    for h in hooks:
+                        out[h].append(ci.methods[m].qual)
+    return {k: v for k, v in out.items() if v}
+
+
+def _chain(esc, entry, it):
+    """A call chain entry -> ... -> function that raises `it` (through functions whose escape set contains it)."""
+    has = {}
+    for (q, _env), items in esc.final.items():
+        if it in items:
+            has[q] = True
+    fi, _node = esc.sites.get(it, (None, None))
+    target = fi.qual if fi is not None else None
+    seen, todo = {entry: None}, [entry]
+    while todo:
+        q = todo.pop(0)
+        if q == target:
+            out = []
+            while q is not None:
+                out.append(q)
+                q = seen[q]
+            return ' -> '.join(reversed(out))
+        for c in sorted(esc.call_edges.get(q, ())):
+            if c not in seen and (c in has or c == target):
+                seen[c] = q
+                todo.append(c)
+    return None
 
 
 def _key(esc, it):
@@ -209,6 +265,16 @@ def _justified(ctx, esc, it):
                     and bool(_digits_only(ctx, f, last.value.args[0]))
         if ok:
             return 'y2k() is called only under `year < 100` with a year parsed from a digits-only group (>= 0)'
+    # 2d. codec names
+    if it.kind == 'external' and it.type == 'LookupError' and isinstance(node, ast.Call):
+        why = _codec_known(ctx, fi, node)
+        if why:
+            return why
+    # 2e. detect_encoding's final raise: unreachable with a lossless fallback
+    if it.kind == 'raise' and q == 'wpull.string:detect_encoding':
+        why = _lossless_fallback(ctx, fi)
+        if why:
+            return why
     # 3. an assert that repeats a dominating check of the same condition
     if it.kind == 'assert':
         pm = U.parents(fi.node)
@@ -223,6 +289,284 @@ def _justified(ctx, esc, it):
                             and same_bool(U.canon_suffix_tests(prev.test), ast.UnaryOp(op=ast.Not(), operand=U.canon_suffix_tests(node.test))):
                         return 'assert repeats the dominating check `if not %s: raise`' % cond
     return None
+
+
+LOSSLESS_CODECS = {'latin1', 'latin-1', 'latin_1', 'iso-8859-1', 'iso8859-1', 'iso_8859_1', 'l1', 'cp437', 'cp850'}
+
+
+def _codec_arg(call):
+    """The expression naming the codec in .decode(enc) / .encode(enc) / codecs.getreader(enc) / io.TextIOWrapper(f, enc)."""
+    d = dotted(call.func) or ''
+    if d == 'io.TextIOWrapper':
+        return U.kwarg(call, 'encoding', 1)
+    return U.kwarg(call, 'encoding', 0)
+
+
+def _codec_known(ctx, fi, call):
+    """LookupError cannot happen when the codec name is (a) a field written only by __init__ from a parameter that every
+    constructor call in the repository leaves at its constant default or binds to a constant, (b) the same unmodified name with
+    which a decode in the enclosing try body has just raised UnicodeError (so the codec exists and is a text encoding), or
+    (c) the encoding a scraper obtained from detect_response_encoding() / its command-line override, given that detect_encoding
+    returns only names with which try_decoding() succeeded."""
+    repo, res = ctx.repo, ctx.res
+    enc = _codec_arg(call)
+    if enc is None:
+        return None
+    if isinstance(enc, ast.BoolOp) and isinstance(enc.op, ast.Or) and all(isinstance(v, ast.Constant) for v in enc.values[1:]):
+        enc = enc.values[0]
+    # (a)
+    if U.is_self_attr(enc) and fi.cls is not None and (fi.cls.qual, enc.attr) in _CTOR_CONST:
+        return _CTOR_CONST[(fi.cls.qual, enc.attr)]
+    if U.is_self_attr(enc) and fi.cls is not None:
+        attr = enc.attr
+        _CTOR_CONST[(fi.cls.qual, attr)] = None
+        stores = [(m, n) for c in repo.mro(fi.cls) for m in c.methods.values() for n in F.assigned_attrs(m.node, attr)]
+        init = repo.find_method(fi.cls, '__init__')
+        ok = bool(stores) and init is not None and all(m is init and isinstance(n, ast.Assign) and isinstance(n.value, ast.Name)
+                                                       and n.value.id in init.params for m, n in stores)
+        if ok:
+            par = stores[0][1].value.id
+            a = init.node.args
+            names = [x.arg for x in a.args]
+            defaults = dict(zip(names[len(names) - len(a.defaults):], a.defaults))
+            ok = isinstance(defaults.get(par), ast.Constant)
+            owners = {c.qual for c in [fi.cls] + list(repo.subclasses(fi.cls))}
+            sites = 0
+            for f in repo.funcs.values():
+                for c in U.calls(f.node):
+                    for kind, t in res.resolve_call(f, c, allow_name=False, count=False):
+                        if kind == 'class' and t.qual in owners:
+                            sites += 1
+                            v = U.kwarg(c, par, names.index(par) - 1)
+                            if v is not None and not isinstance(v, ast.Constant):
+                                ok = False
+            if ok and sites:
+                _CTOR_CONST[(fi.cls.qual, attr)] = 'codec name is the constructor constant of %s.%s (%d construction sites, all constant)' % (
+                    fi.cls.name, attr, sites)
+                return _CTOR_CONST[(fi.cls.qual, attr)]
+    # (b)
+    if isinstance(enc, ast.Name):
+        pm = U.parents(fi.node)
+        for a in U.ancestors(call, pm):
+            if isinstance(a, ast.ExceptHandler):
+                t = pm.get(id(a))
+                types = [norm_text(x) for x in (a.type.elts if isinstance(a.type, ast.Tuple) else [a.type])] if a.type is not None else []
+                if isinstance(t, ast.Try) and types and all(x.startswith('Unicode') for x in types) and len(t.body) == 1:
+                    inner = [c for c in U.calls(t.body[0]) if U.attr_name(c) in ('decode', 'encode')]
+                    if len(inner) == 1 and isinstance(_codec_arg(inner[0]), ast.Name) and _codec_arg(inner[0]).id == enc.id \
+                            and not [d for d in U.local_defs(fi.node).get(enc.id, []) if d[1] != 'param']:
+                        return 'the same codec name has just raised a Unicode error in the enclosing try body, so it exists and is a text encoding'
+    # (c)
+    if isinstance(enc, ast.Name) and enc.id in fi.params and fi.module.name.startswith(('wpull.document', 'wpull.scraper')):
+        # (parameters are not renamed by refactors of the body)
+        why = _scraper_encodings_validated(ctx)
+        if why:
+            return why
+    return None
+
+
+_VALIDATED = {}
+_CTOR_CONST = {}
+
+
+def _scraper_encodings_validated(ctx):
+    repo = ctx.repo
+    if 'r' in _VALIDATED:
+        return _VALIDATED['r']
+    _VALIDATED['r'] = None
+    # 1. try_decoding returns True only after a decode with the candidate codec completed
+    td = repo.func('wpull.string:try_decoding')
+    cfg = ctx.cfg(td)
+    par = td.params[1] if len(td.params) > 1 else None
+    rets_true = [n for n in cfg.nodes if n.kind == 'return' and isinstance(n.stmt.value, ast.Constant) and n.stmt.value.value is True]
+    dec = [n for n in cfg.stmt_nodes() if any(U.attr_name(c) == 'decode' and isinstance(_codec_arg(c), ast.Name) and _codec_arg(c).id == par
+                                              for c in F.node_calls(n))]
+    ok = bool(rets_true) and bool(dec) and all(
+        cfg.find_path(cfg.entry, lambda m, r=r: m is r, edge_ok=F.normal, stop=lambda m: m in dec) is None for r in rets_true)
+    # every other return is a constant False / None
+    ok = ok and all(n.kind != 'return' or (isinstance(n.stmt.value, ast.Constant)) for n in cfg.nodes)
+    # 2. detect_encoding returns a name only on the true edge of try_decoding(data, name)
+    de = repo.func('wpull.string:detect_encoding')
+    dcfg = ctx.cfg(de)
+    for r in [n for n in dcfg.nodes if n.kind == 'return']:
+        if not isinstance(r.stmt.value, ast.Name):
+            ok = False
+            continue
+        nm = r.stmt.value.id
+        gates = [n for n in dcfg.nodes if n.kind == 'if' and U.like(n.stmt.test, 'try_decoding(L_d, %s)' % nm)]
+        okr = False
+        for g in gates:
+            byp = dcfg.find_path(dcfg.entry, lambda m: m is r, edge_ok=F.normal, stop=lambda m: m is g)
+            fal = dcfg.find_path(g, lambda m: m is r, edge_ok=F.normal, first_edges=lambda a, b, k: k != 'T', stop=lambda m: m is g)
+            okr = okr or (byp is None and fal is None)
+        ok = ok and okr
+    # 3. every scraper hands down `self._encoding_override or detect_response_encoding(response...)`, which returns detect_encoding's result
+    dre = repo.func('wpull.document.util:detect_response_encoding')
+    rv = [n for n in walk_no_nested(dre.node) if isinstance(n, ast.Return)]
+    okd = len(rv) == 1 and isinstance(rv[0].value, ast.Name)
+    if okd:
+        ds = [(v, k, s_) for v, k, s_ in U.local_defs(dre.node).get(rv[0].value.id, []) if k != 'param']
+        last = max(ds, key=lambda d_: d_[2].lineno) if ds else None
+        okd = last is not None and isinstance(last[0], ast.Call) and (dotted(last[0].func) or '').endswith('detect_encoding') \
+            and any(last[2] is x for x in dre.node.body) and last[2].lineno < rv[0].lineno
+    ok = ok and okd
+    n_scr = 0
+    for f in repo.funcs.values():
+        if not (f.module.name.startswith('wpull.scraper') and f.name == 'scrape'):
+            continue
+        # every value in a scraper that mentions the override or an encoding helper has the validated form
+        vals = [n.value for n in walk_no_nested(f.node) if isinstance(n, ast.Assign)
+                and any(U.is_self_attr(x, '_encoding_override') or (isinstance(x, ast.Call) and 'encoding' in (dotted(x.func) or '').lower())
+                        for x in ast.walk(n.value))]
+        if not vals:
+            continue
+        n_scr += 1
+        for v in vals:
+            good = isinstance(v, ast.BoolOp) and isinstance(v.op, ast.Or) and len(v.values) == 2 and U.is_self_attr(v.values[0], '_encoding_override') \
+                and isinstance(v.values[1], ast.Call) and (dotted(v.values[1].func) or '').endswith('detect_response_encoding')
+            ok = ok and good
+    if ok and n_scr >= 4:
+        _VALIDATED['r'] = ('the codec name is the command-line override or the result of detect_response_encoding(); detect_encoding '
+                           'returns only a name with which try_decoding() completed a decode (%d scrapers)' % n_scr)
+    return _VALIDATED['r']
+
+
+def _lossless_fallback(ctx, fi):
+    """The raise after detect_encoding's candidate loop is unreachable when the last candidate (`fallback`) decodes every byte
+    string: the parameter default is a Latin-1 style codec and no caller in the repository passes another one."""
+    repo, res = ctx.repo, ctx.res
+    a = fi.node.args
+    names = [x.arg for x in a.args]
+    defaults = dict(zip(names[len(names) - len(a.defaults):], a.defaults))
+    d = defaults.get('fallback')
+    if not (isinstance(d, ast.Constant) and str(d.value).lower() in LOSSLESS_CODECS):
+        return None
+    chained = any(isinstance(n, ast.Call) and (dotted(n.func) or '').endswith('chain') and any(
+        isinstance(x, ast.Tuple) and any(isinstance(e, ast.Name) and e.id == 'fallback' for e in x.elts) for x in n.args)
+        for n in walk_no_nested(fi.node))
+    if not chained:
+        return None
+    sites = 0
+    for f in repo.funcs.values():
+        if f.module.name.startswith(OUT_OF_SCOPE_MODULES):
+            continue
+        for c in U.calls(f.node):
+            if (dotted(c.func) or '').endswith('detect_encoding') and fi in res.callee_funcs(f, c, allow_name=False, count=False):
+                sites += 1
+                v = U.kwarg(c, 'fallback', names.index('fallback'))
+                if v is not None and not (isinstance(v, ast.Constant) and str(v.value).lower() in LOSSLESS_CODECS):
+                    return None
+    return 'the fallback candidate is %r at all %d call sites: it decodes every byte string, so the loop always returns' % (d.value, sites)
+
+
+def _d7_pasv(ctx):
+    repo, ck, res = ctx.repo, ctx.check, ctx.res
+    # the PASV parser is whatever the command layer calls on the reply text of passive_mode
+    pm_f = repo.func('wpull.protocol.ftp.command:Commander.passive_mode')
+    targets = []
+    for c in U.calls(pm_f.node):
+        for g in res.callee_funcs(pm_f, c, allow_name=False, count=False):
+            if g.module.name.startswith('wpull.protocol.ftp.util'):
+                targets.append((c, g))
+    if len(targets) != 1:
+        raise AnalysisError('passive_mode: PASV address parser not found')
+    call, pa = targets[0]
+    # caller converts ValueError
+    pmap = U.parents(pm_f.node)
+    conv = False
+    for a in U.ancestors(call, pmap):
+        if isinstance(a, ast.Try) and any(call is x for b in a.body for x in ast.walk(b)):
+            for h in a.handlers:
+                types = [norm_text(x) for x in (h.type.elts if isinstance(h.type, ast.Tuple) else [h.type])] if h.type is not None else ['BaseException']
+                if any(t in ('ValueError', 'Exception') for t in types) and any(isinstance(x, ast.Raise) for x in ast.walk(h)) \
+                        and any('ProtocolError' in norm_text(x.exc) for x in ast.walk(h) if isinstance(x, ast.Raise) and x.exc is not None):
+                    conv = True
+    ck.expect(conv, 'C09-D7', pm_f.qual, 'ValueError from the PASV parser -> ProtocolError', 'a malformed PASV reply is no longer converted to a protocol error', pm_f.loc(call))
+    rxs = [RX.rx_from_call(repo, pa.module, c) for c in U.calls(pa.node)]
+    rxs = [r for r in rxs if r is not None]
+    if len(rxs) != 1:
+        raise AnalysisError('%s: expected one constant pattern' % pa.qual)
+    rx = rxs[0]
+    big = []
+    ngroups = 0
+    for op, av in rx.walk():
+        if op is C.SUBPATTERN and av[0]:
+            ngroups += 1
+            lo, hi = av[3].getwidth()
+            if hi > 2 and not _group_max_255(av[3]):
+                big.append(av[0])
+    if not big:
+        ck.ok('C09-D7', pa.qual, 'every group of %r is bounded by 255 by the pattern itself' % rx.pattern)
+        return
+    # a dominating range check
+    cfg = ctx.cfg(pa)
+    mname = None
+    for n, ds in U.local_defs(pa.node).items():
+        if any(v is rx.call for v, k, s_ in ds):
+            mname = n
+    derived = {mname} if mname else set()
+    changed = True
+    while changed:
+        changed = False
+        for n, ds in U.local_defs(pa.node).items():
+            if n not in derived and any(v is not None and any(isinstance(x, ast.Name) and x.id in derived for x in ast.walk(v)) for v, k, s_ in ds):
+                derived.add(n)
+                changed = True
+
+    def covers(test):
+        """group numbers that `test` compares with 255/256 (None = all, through .groups())"""
+        out = set()
+        for cmp_ in [x for x in ast.walk(test) if isinstance(x, ast.Compare) and len(x.ops) == 1]:
+            a, b = cmp_.left, cmp_.comparators[0]
+            op = cmp_.ops[0]
+            if isinstance(a, ast.Constant):
+                a, b = b, a
+                op = {ast.Lt: ast.Gt, ast.LtE: ast.GtE, ast.Gt: ast.Lt, ast.GtE: ast.LtE}.get(type(op), type(op))()
+            if not (isinstance(b, ast.Constant) and isinstance(b.value, int)):
+                continue
+            if not ((isinstance(op, ast.Gt) and b.value == 255) or (isinstance(op, ast.GtE) and b.value == 256)
+                    or (isinstance(op, ast.LtE) and b.value == 255) or (isinstance(op, ast.Lt) and b.value == 256)):
+                continue
+            names = {x.id for x in ast.walk(a) if isinstance(x, ast.Name)}
+            # comprehension variables iterating over match.groups() / derived lists
+            scope = test
+            comp_all = False
+            for comp in [x for x in ast.walk(scope) if isinstance(x, ast.comprehension)]:
+                it_names = {x.id for x in ast.walk(comp.iter) if isinstance(x, ast.Name)}
+                tv = {x.id for x in ast.walk(comp.target) if isinstance(x, ast.Name)}
+                if tv & names and (it_names & derived):
+                    if any(isinstance(x, ast.Call) and U.attr_name(x) == 'groups' for x in ast.walk(comp.iter)) or (it_names & (derived - {mname})):
+                        comp_all = True
+            if comp_all or any(isinstance(x, ast.Call) and U.attr_name(x) == 'groups' for x in ast.walk(a)) or (names & (derived - {mname})):
+                return None
+            for g in [x for x in ast.walk(a) if isinstance(x, ast.Call) and U.attr_name(x) == 'group' and x.args and isinstance(x.args[0], ast.Constant)]:
+                out.add(g.args[0].value)
+        return out
+    rets = [n for n in cfg.nodes if n.kind == 'return' and n.stmt.value is not None]
+    ok = False
+    for n in cfg.nodes:
+        if n.kind != 'if':
+            continue
+        cov = covers(n.stmt.test)
+        if cov is not None and not set(big) <= cov:
+            continue
+        # refusing edge: the edge on which some number is out of range leads to a raise of ValueError, never to a return
+        inverted = any(isinstance(x, ast.Compare) and isinstance(x.ops[0], (ast.LtE, ast.Lt)) for x in ast.walk(n.stmt.test)) \
+            != (isinstance(n.stmt.test, ast.UnaryOp) and isinstance(n.stmt.test.op, ast.Not))
+        bad_edge = 'F' if inverted else 'T'
+        leak = cfg.find_path(n, lambda m: m in rets, edge_ok=F.normal, first_edges=lambda a, b, k: k == bad_edge)
+        byp = [cfg.find_path(cfg.entry, lambda m, r=r: m is r, edge_ok=F.normal, stop=lambda m: m is n) for r in rets]
+        if leak is None and all(b is None for b in byp):
+            ok = True
+    ck.expect(ok, 'C09-D7', pa.qual, 'groups %s of %r (up to 999) are refused above 255 before the address is returned' % (big, rx.pattern),
+              'a PASV reply such as "227 (1,2,3,4,999,999)" yields port 255975: connect() raises OverflowError, which is not a '
+              'per-URL error, and the crawl stops', pa.loc())
+
+
+def _group_max_255(sub):
+    """Conservative: the sub-pattern cannot match a decimal number above 255 (only recognises widths <= 2)."""
+    lo, hi = sub.getwidth()
+    return hi <= 2
 
 
 def _digits_only(ctx, fi, arg):
@@ -344,6 +688,9 @@ def run(ctx):
                       'decompress/flush site converts zlib.error to ProtocolError')
     ck.rule('C09-D6', 'typestate: after a stream reader closes its connection no feasible path (branch conditions on the byte '
                       'counters taken into account) reads from it again - such a read trips an assertion in the connection layer')
+    ck.rule('C09-D7', 'numbers a server supplies for the FTP data connection are range-checked before they become an address: every '
+                      'group of the PASV pattern that can exceed 255 is refused with ValueError (converted to ProtocolError by the '
+                      'caller) - connect() raises OverflowError, not a network error, for a port above 65535')
     ck.rule('C09-D5', 'the crash path is as assumed: unexpected exception types are not in the application\'s EXPECTED_EXCEPTIONS, '
                       'REMOTE_ERRORS contains the four per-URL error kinds')
 
@@ -375,6 +722,11 @@ def run(ctx):
     def clean(fi, expr):
         """Request header records are written only by the crawler itself (C16-D3 enumerates the writers):
         `<request>.fields...` is never server data although NameValueRecord is shared with responses."""
+        if isinstance(expr, ast.Call):
+            d = dotted(expr.func) or ''
+            # values looked up in local tables / the local file system are selected, not supplied, by the server
+            if d in CLEAN_CALLS or (isinstance(expr.func, ast.Attribute) and expr.func.attr in CLEAN_METHODS):
+                return True
         cur = expr
         while isinstance(cur, (ast.Call, ast.Subscript, ast.Attribute)):
             if isinstance(cur, ast.Attribute) and cur.attr == 'fields':
@@ -384,8 +736,18 @@ def run(ctx):
                     return True
             cur = cur.func if isinstance(cur, ast.Call) else cur.value
         return False
-    taint = Taint(repo, res, seed_params=TAINT_SEEDS, exclude=('wpull.thirdparty', 'wpull.proxy.server'), clean=clean)
-    esc = Escape(repo, res, summaries=summaries, taint=taint)
+    # the response object is server data wherever the processors hand it on (writer sessions, result rules, statistics)
+    seeds = list(TAINT_SEEDS)
+    for f in repo.funcs.values():
+        if f.module.name in PROCESSOR_SIDE and 'response' in f.params:
+            seeds.append((f.qual, 'response'))
+    for qs in _cookie_callbacks(repo).values():
+        for q_ in qs:
+            for p_ in repo.funcs[q_].params[1:]:
+                seeds.append((q_, p_))
+    taint = Taint(repo, res, seed_params=seeds, exclude=('wpull.thirdparty', 'wpull.proxy.server'), clean=clean)
+    esc = Escape(repo, res, summaries=summaries, taint=taint, codec_lookup=True, stop_modules=OUT_OF_SCOPE_MODULES, external=LOCAL_IO,
+                 callbacks=_cookie_callbacks(repo))
     ck.info['tainted_functions'] = sum(1 for q, s in taint.locals.items() if s)
 
     # ------------------------------------------------------------------ D1 (+D4)
@@ -414,10 +776,13 @@ def run(ctx):
             seen[(where, cons)] = q
             ck.bad('C09-D1' if it.kind != 'assert' else 'C09-D1', where, cons,
                    '%s raised at %s depends on server data and can leave %s without being converted to a per-URL error: '
-                   'the worker task dies and the whole crawl stops' % (it.type.split(':')[-1], it.origin, q), it.origin.split(' ')[0])
+                   'the worker task dies and the whole crawl stops' % (it.type.split(':')[-1], it.origin, q), it.origin.split(' ')[0],
+                   _chain(esc, q, it))
         ck.ok('C09-D1', q, 'escape set of %d item(s) examined' % len(items))
     ck.info['escape_items_examined'] = examined
     ck.info['escape_unknown_externals'] = dict(sorted(esc.unknown_external.items(), key=lambda kv: -kv[1])[:60])
+
+    _d7_pasv(ctx)
 
     # ------------------------------------------------------------------ D2
     SESSION_CALLS = {'start', 'start_listing', 'download', 'download_listing'}
